@@ -51,10 +51,10 @@ def pIntC : P (Option IntC)
 
 def pStrC : P (Option StrC)
   | "-" :: r => some (none, r)
-  | "s" :: em :: eq :: ct :: hp :: hs :: r =>
-    match flagArg em, hexArg eq, hexArg ct, hexArg hp, hexArg hs, pIntC r with
-    | some em, some eq, some ct, some hp, some hs, some (bl, r) => some (some ⟨em, eq, ct, hp, hs, bl⟩, r)
-    | _, _, _, _, _, _ => none
+  | "s" :: em :: eq :: ct :: hp :: hs :: ci :: r =>
+    match flagArg em, hexArg eq, hexArg ct, hexArg hp, hexArg hs, flagArg ci, pIntC r with
+    | some em, some eq, some ct, some hp, some hs, some ci, some (bl, r) => some (some ⟨em, eq, ct, hp, hs, bl, ci⟩, r)
+    | _, _, _, _, _, _, _ => none
   | _ => none
 
 def pTimeC : P (Option TimeC)
